@@ -116,7 +116,9 @@ func runSynctestImpl(t *tape.Tape, cfg sim.Config) (res sim.Result) {
 		res.Fail("late-stop", "%+v: the call returned after %v of simulated time; deadline %v plus at most %d more callbacks of %v allows %v", sc, time.Duration(r.ElapsedNs), time.Duration(sc.Deadline), r.Sites+2, time.Duration(sc.Sleep), time.Duration(limit))
 		return
 	}
-	res.Logf("returned exit code %#x after %v simulated", r.ExitCode, time.Duration(r.ElapsedNs))
+	// the simulated instant of the return is not part of the trace: when a callback's sleep ends at the
+	// very instant of the deadline, which of the two goroutines runs first is the Go scheduler's choice
+	res.Logf("returned exit code %#x", r.ExitCode)
 	return
 }
 
